@@ -218,12 +218,27 @@ func c09SharedBucket(c *Ctx, allow *ssa.Function) {
 		if ta, ok := v.(*ssa.TypeAssert); ok {
 			v = ta.X
 		}
+		if ex, ok := v.(*ssa.Extract); ok {
+			if ta, ok := ex.Tuple.(*ssa.TypeAssert); ok && ex.Index == 0 {
+				v = ta.X
+			}
+		}
+		if ph, ok := v.(*ssa.Phi); ok && depth < 6 {
+			for _, e := range ph.Edges {
+				check(e, depth+1)
+			}
+			return
+		}
+		v = singleStore(v)
+		if ta, ok := v.(*ssa.TypeAssert); ok {
+			v = ta.X
+		}
 		d := p.Desc(v, nil)
 		switch {
 		case strings.HasPrefix(d, "call:(*sync.Map).Load(") && strings.HasSuffix(d, "#0"):
 		case strings.HasPrefix(d, "call:(*sync.Map).LoadOrStore(") && strings.HasSuffix(d, "#0"):
 		default:
-			if call, ok := v.(*ssa.Call); ok && depth < 3 {
+			if call, ok := v.(*ssa.Call); ok && depth < 6 {
 				if h := StaticFn(call); h != nil && p.IsHelios(h) {
 					instrsOf(h, func(in ssa.Instruction) {
 						if r, ok := in.(*ssa.Return); ok && len(r.Results) == 1 {
